@@ -321,7 +321,10 @@ class Converter:
             data = self.fs.get(key)
             if not isinstance(data, (bytes, str)):
                 raise Unsupported("include-missing-file")
-            text = data if isinstance(data, str) else data.decode("utf-8")
+            try:
+                text = data if isinstance(data, str) else data.decode("utf-8")
+            except UnicodeDecodeError:
+                raise Unsupported("include-missing-file")
         else:
             try:
                 with open(include_path, "r") as f:
@@ -417,6 +420,8 @@ class Converter:
         if name in (".list", ".nlist", ".page", ".title", ".sbttl"):
             if name in (".list", ".nlist", ".page"):
                 need(0)
+            else:
+                need(1)          # .title / .sbttl without text: wrong-meta-operands in the code
             return "NoOp"
         if name == ".once":
             need(0)
